@@ -54,13 +54,14 @@ def runOfJson (j : Json) : Except String Run := do
     | none => pure []
   let failGet ← match jopt j "failGet" with | some a => idsOfJson a | none => pure []
   let envDel ← match jopt j "envDel" with | some a => idsOfJson a | none => pure []
+  let initial ← match jopt j "initial" with | some a => idsOfJson a | none => pure []
   let watchErr := match ((jstr j "watchErr").toOption.getD "").splitOn ":" with
     | ["wait", n, k] => some (n.toNat!, k.toNat!)
     | _ => none
   return { destroy := (← jstr j "kind") = "destroy", objs := objs, opts := opts,
            failMut := ← natList j "failMut", failInvRead := ← natList j "failInvRead", failGet := failGet,
            ctrl := ← behaviours j "ctrl", del := ← behaviours j "del",
-           cancel := parseCancel ((jstr j "cancel").toOption.getD ""), watchErr := watchErr, envDel := envDel }
+           cancel := parseCancel ((jstr j "cancel").toOption.getD ""), watchErr := watchErr, envDel := envDel, initial := initial }
 
 /-! JSON rendering in the shape of the Go harness -/
 
